@@ -35,11 +35,11 @@ TIERS = {
     'quick': {'shards': 14, 'random': 4200, 'timeout': 900, 'min_cases': 2500,
               'require_branches': ['reader:svg2paths2', 'reader:Document', 'reader:SaxDocument', 'attr:special-characters',
                                    'attr:non-ascii', 'file:nested-new-directory', 'history:add_path-nested-group',
-                                   'history:reload', 'svg-attributes']},
+                                   'history:reload', 'svg-attributes', 'wsvg:same-dictionaries-twice']},
     'thorough': {'shards': 14, 'random': 50000, 'timeout': 3400, 'min_cases': 30000,
                  'require_branches': ['reader:svg2paths2', 'reader:Document', 'reader:SaxDocument',
                                       'attr:special-characters', 'attr:non-ascii', 'file:nested-new-directory',
-                                      'history:add_path-nested-group', 'history:reload', 'svg-attributes']},
+                                      'history:add_path-nested-group', 'history:reload', 'svg-attributes', 'wsvg:same-dictionaries-twice']},
 }
 CASE_TIMEOUT = 60
 SVGNS = 'http://www.w3.org/2000/svg'
@@ -73,6 +73,9 @@ def _attr_class(attrs):
     return out
 
 
+INTENDED = {}
+
+
 def post_disvg(call):
     ctx = core.CTX
     a = call.a
@@ -91,6 +94,11 @@ def post_disvg(call):
                 ctx.skip('zero-length Line in a written path')
                 return False
     attributes, svg_attributes = a.get('attributes'), a.get('svg_attributes')
+    # what the caller supplied: when the driver passes the same dictionary objects to consecutive wsvg calls it
+    # registers their contents as of the first call (a writer that consumes entries of the caller's dictionary
+    # silently drops them from the second file)
+    attributes = INTENDED.get(id(attributes), attributes)
+    svg_attributes = INTENDED.get(id(svg_attributes), svg_attributes)
     ctx.verdict()
     tags = _attr_class(attributes)
     fkey = ('/' + '+'.join(tags)) if tags else ''
@@ -422,10 +430,21 @@ def run_case(ctx, case):
                 ctx.branch('attr:' + t)
             if '/' in case['fname']:
                 ctx.branch('file:nested-new-directory')
+            import copy
+            attrs, svg_attrs = case['attrs'], case['svg_attrs']
+            INTENDED.clear()
+            for o in (attrs, svg_attrs):
+                if o is not None:
+                    INTENDED[id(o)] = copy.deepcopy(o)
             try:
-                wsvg(paths, filename=fn, attributes=case['attrs'], svg_attributes=case['svg_attrs'])
+                wsvg(paths, filename=fn, attributes=attrs, svg_attributes=svg_attrs)
+                # the same dictionaries again, as a caller writing several files with one set of settings does
+                ctx.branch('wsvg:same-dictionaries-twice')
+                wsvg(paths, filename=os.path.join(work, 'second.svg'), attributes=attrs, svg_attributes=svg_attrs)
             except Exception:
                 pass              # judged by the exception observer
+            finally:
+                INTENDED.clear()
             return
         # Document history
         if case['start'] == 'empty' or not _ok(case['init']):
